@@ -36,7 +36,7 @@ def shards(tier, seed):
 
 
 def floors(tier):
-    f = {"rewrite:compared": 1500, "history:runs": 150, "history:calls": 1500}
+    f = {"rewrite:compared": 1500, "history:runs": 150, "history:calls": 1500, "history:results_compared_with_untouched_copy": 300}
     for r in ("copy", "unwrap", "group", "remove_identity", "assign_noise_empty"):
         f["rewrite:" + r] = 150
     for c in ("compile", "metric", "solver", "assign_noise", "monte_carlo", "compare", "rewrite_on_copy", "export", "compile_initial"):
@@ -67,6 +67,17 @@ def circuit_fp(circ):
     # edge attributes are part of the object other functions read (e.g. the GED comparison compares them)
     out.append(tuple(sorted((str(u), str(v), str(k), tuple(sorted((a, repr(b)) for a, b in d.items()))) for u, v, k, d in circ.dag.edges(keys=True, data=True))))
     return tuple(out)
+
+
+class HistoryDependence(Exception):
+    pass
+
+
+def unwrapped_fp(circ):
+    """the circuit as the compilers execute it: per register, the unwrapped gates with the noise each carries"""
+    x = circ.copy()
+    x.unwrap_nodes()
+    return circuit_fp(x)[:-1]
 
 
 def state_fp(qs):
@@ -203,6 +214,7 @@ class Pool:
         self.nm = nm
         self.objs = {}
         self.progs = {}
+        self.pristine = {}
         # circuits
         for k in range(int(rng.integers(2, 4))):
             if k == 0:
@@ -214,6 +226,9 @@ class Pool:
                 prog, circ = gen_A(rng, allow_big=False)    # the pool circuits are also compiled with the density-matrix backend
             self.objs[f"circuit{k}"] = circ
             self.progs[f"circuit{k}"] = prog
+            # a copy taken before anything has been done with the circuit and never handed to any call: what a call returns
+            # for the circuit must be what it returns for (a copy of) this one, whatever was called in between
+            self.pristine[f"circuit{k}"] = copy.deepcopy(circ)
         # targets
         A = graphs.random_connected_graph(rng, int(rng.integers(2, 5)), 0.5)
         self.target_adj = A
@@ -271,7 +286,14 @@ def do_call(pool, name, rng, ctx):
     comp.measurement_determinism = [0, 1, "probabilistic"][int(rng.integers(3))]
     if name == "compile":
         comp.noise_simulation = bool(rng.integers(2))
-        comp.compile(c)
+        st = comp.compile(c)
+        if ck in pool.pristine and comp.measurement_determinism in (0, 1) and st.n_qubits <= 6:
+            comp2 = m[backend]()
+            comp2.measurement_determinism, comp2.noise_simulation = comp.measurement_determinism, comp.noise_simulation
+            st0 = comp2.compile(copy.deepcopy(pool.pristine[ck]))
+            ctx.count("history:results_compared_with_untouched_copy")
+            if state_fp(st) != state_fp(st0):
+                raise HistoryDependence(f"{backend}(noise_simulation={comp.noise_simulation}).compile({ck}) differs from the compile of an untouched copy")
         return f"{backend}(noise_simulation={comp.noise_simulation}).compile({ck})"
     if name == "compile_initial":
         ik = "initial_s" if backend == "StabilizerCompiler" else "initial_dm"
@@ -302,6 +324,11 @@ def do_call(pool, name, rng, ctx):
         return f"TimeReversedSolver({tk}, noise={'map' if noise else None}).solve()"
     if name == "assign_noise":
         d = c.assign_noise(pool.objs["noise_map"])
+        if ck in pool.pristine:
+            d0 = copy.deepcopy(pool.pristine[ck]).assign_noise(pool.objs["noise_map"])
+            ctx.count("history:results_compared_with_untouched_copy")
+            if unwrapped_fp(d) != unwrapped_fp(d0):
+                raise HistoryDependence(f"{ck}.assign_noise(noise_map) differs (as executed: unwrapped gates with their noise) from the result for an untouched copy")
         key = f"derived{len(pool.objs)}"
         if len([k for k in pool.objs if k.startswith("derived")]) < 2:
             pool.objs[key] = d
@@ -329,9 +356,12 @@ def do_call(pool, name, rng, ctx):
         cc.remove_identity()
         return f"{ck}.copy().unwrap_nodes().remove_identity()"
     if name == "export":
-        c.to_openqasm()
-        c.to_json()
-        c.depth
+        q, j, d_ = c.to_openqasm(), c.to_json(), c.depth
+        if ck in pool.pristine:
+            c0 = copy.deepcopy(pool.pristine[ck])
+            ctx.count("history:results_compared_with_untouched_copy")
+            if (q, repr(j), d_) != (c0.to_openqasm(), repr(c0.to_json()), c0.depth):
+                raise HistoryDependence(f"{ck}.to_openqasm()/to_json()/depth differ from those of an untouched copy")
         return f"{ck}.to_openqasm()/to_json()"
     raise ValueError(name)
 
@@ -348,6 +378,11 @@ def run_history(hseed, ctx, m):
         name = CALLS[int(rng.integers(len(CALLS)))]
         try:
             desc = do_call(pool, name, rng, ctx)
+        except HistoryDependence as e:
+            ctx.violation("result_depends_on_earlier_calls", {"kind": "history", "hseed": hseed}, {"problem": str(e), "history": calls[-8:]},
+                          key=f"history_dependence:{name}")
+            ctx.case(("h", tuple(hseed)), True)
+            return
         except Exception as e:
             desc = f"{name} raised {type(e).__name__}: {e}"[:200]
             ctx.count("history:call_raised:" + name + ":" + type(e).__name__)
